@@ -11,7 +11,8 @@ META = {
     "technique": 'contract-based deductive verification: symbolic execution of the real functions against sidecar contracts (z3/cvc5) for the proved units, inductive loop invariants on the real loops (unbounded in length and iteration count); bounded contract evaluation (enumerated scope / independent writer) for the rest',
     "level": "other",
     "partial": True,
-    "level_text": "Loop contracts (unbounded): the attribute loops of AXMLParser._do_next for a START_ELEMENT chunk with any attribute "
+    "level_text": "Termination (variant = bytes left) of the chunk loop of AXMLParser._do_next on a file of any length and content, with "
+                  "the nested loops and the header's skip loop under their own contracts. Loop contracts (unbounded): the attribute loops of AXMLParser._do_next for a START_ELEMENT chunk with any attribute "
                   "count (0..65535) and any attributeSize >= 20 in a file of any length: attribute a is read at attributeStart + a * "
                   "attributeSize (five words, the typed-value word reduced to its data type), the parser ends at the end of the "
                   "chunk. Proof: one arbitrary step of the pull parser on symbolic chunks of every kind (START_ELEMENT with 0..3 "
@@ -411,7 +412,7 @@ def _inv_shift(spec, L, k):
 
 
 def _havoc_shift(spec, L):
-    L["self"].m_attributes.havoc(spec.tag)
+    L["self"].m_attributes.havoc(spec.tag, keep_len=True)       # the loop overwrites elements, it never changes the length
 
 
 ATTR_SHIFT = LoopSpec("AXMLParser._do_next#4", invariant=_inv_shift, const=("self",), at_havoc=_havoc_shift)
@@ -472,3 +473,98 @@ def start_element_unbounded(U, f):
     U.ensures("attribute a is read at attributeStart + a * attributeSize: namespace, name, raw value, data type (high byte of the "
               "typed-value word), data", Implies(a < count, _skolem_clause(ATTR_SHIFT, p.m_attributes, count)))
     U.ensures("the parser is positioned at the end of the chunk", p.buff.pos == p0 + size)
+
+
+# ------------------------------------------------------------------------------------------------
+# Termination of the chunk loop of AXMLParser._do_next (`while self._valid`) on a file of ANY length and content, from any parser
+# state: variant `bytes left` (every iteration that continues starts with an 8-byte chunk header and either consumes the chunk's
+# fields or seeks to header.start + size with size >= 8).  The nested loops (resource map, attributes, type shift) and the header's
+# own skip loop carry their own (weak) contracts, so no count or length is enumerated.
+class _AnyBag:
+    """ghost stand-in for the list of open namespace mappings: membership is arbitrary"""
+
+    def __init__(self, U):
+        self.U = U
+
+    def append(self, x):
+        pass
+
+    def remove(self, x):
+        pass
+
+    def __contains__(self, x):
+        from pyvc.core import ctx
+        return bool(self.U.bool("ns.member#%d" % next(ctx().fresh)))
+
+
+class _PrevHeader:
+    def __init__(self, end):
+        self.end = end
+
+
+def _havoc_outer(spec, L):
+    s, U = L["self"], spec.G["U"]
+    s.buff.havoc(spec.tag)
+    s.m_resourceIDs = GhostIntList("m_resourceIDs", 0, 0xFFFFFFFF)
+    s.m_resourceIDs.havoc(spec.tag)
+    s.m_attributes = GhostIntList("m_attributes", 0, 0xFFFFFFFF)
+    s.m_attributes.havoc(spec.tag)
+    s.namespaces = _AnyBag(U)
+
+
+def _left(L):
+    b = L["self"].buff
+    return Ite(b.pos <= b.buf.length, b.buf.length - b.pos + 1, 0)
+
+
+CHUNKS = LoopSpec("AXMLParser._do_next#0", invariant=lambda s, L, k: And(L["self"]._valid is True, L["self"].buff.pos >= 0),
+                  variant=lambda s, L, k: _left(L), const=("self",), at_havoc=_havoc_outer,
+                  havoc={"h": lambda s, L: _PrevHeader(s.G["U"].int("prev.end@", 0, ubuf.MAXLEN))})
+
+
+def _havoc_stream_and(attr):
+    def f(spec, L):
+        L["self"].buff.havoc(spec.tag)
+        getattr(L["self"], attr).havoc(spec.tag)
+    return f
+
+
+RESMAP_T = LoopSpec("AXMLParser._do_next#1", invariant=lambda s, L, k: L["self"].buff.pos >= L["h"].start + 8, const=("self", "h"),
+                    at_havoc=_havoc_stream_and("m_resourceIDs"))
+ATTRS_T = LoopSpec("AXMLParser._do_next#2", invariant=lambda s, L, k: L["self"].buff.pos >= L["h"].start + 8, const=("self", "h"),
+                   at_havoc=_havoc_stream_and("m_attributes"))
+SHIFT_T = LoopSpec("AXMLParser._do_next#4", invariant=lambda s, L, k: True, const=("self", "h"),
+                   at_havoc=lambda spec, L: L["self"].m_attributes.havoc(spec.tag, keep_len=True))
+HDR_SKIP_T = LoopSpec("ARSCHeader.__init__#0",
+                      invariant=lambda s, L, k: And(L["buff"].pos >= L["self"].start, L["buff"].pos <= L["buff"].buf.length),
+                      variant=lambda s, L, k: L["buff"].buf.length - L["buff"].pos + 8, heap=("buff",), const=("self", "expected_type"))
+
+
+@unit("C26", covers=[(AXML, "AXMLParser._do_next"), (AXML, "ARSCHeader.__init__")],
+      loops={(AXML, "AXMLParser._do_next", 0): CHUNKS, (AXML, "AXMLParser._do_next", 1): RESMAP_T, (AXML, "AXMLParser._do_next", 2): ATTRS_T,
+             (AXML, "AXMLParser._do_next", 4): SHIFT_T, (AXML, "ARSCHeader.__init__", 0): HDR_SKIP_T},
+      samples=100, max_paths=20000, timeout_ms=120000, terminates=True,
+      note="termination of the chunk loop: file of any length and content, arbitrary parser state; variant = bytes left")
+def chunk_loop_terminates(U):
+    m = U.mod(AXML)
+    if U.mode != "sym":
+        n = U.int("n", 0, 96)
+        data = bytes(U.bytes("data", n))
+        p = _parser(U, m, data, U.int("p0", 0, n), n)
+        import struct as _s
+        o = U.call(p._do_next)
+        U.ensures("the step returns (event or error)", o.ok or o.raised(_s.error, m.ResParserError), exc=repr(o.exc))
+        return
+    mem = ubuf.SymMem("file")
+    buf = ubuf.SymBuf(mem, 0, U.int("len", 0, ubuf.MAXLEN))
+    p0 = U.int("p0", 0, ubuf.MAXLEN)
+    p = object.__new__(m.AXMLParser)
+    p._valid, p.axml_tampered = True, False
+    p.buff = ubuf.SymStreamU(buf, p0, "buff")
+    p.buff_size, p.filesize = buf.length, U.int("filesize", 0, ubuf.MAXLEN)
+    p.sb, p.m_resourceIDs, p.namespaces, p.m_event = _SB(), [], [], -1
+    p._reset()
+    for sp in (CHUNKS, RESMAP_T, ATTRS_T, SHIFT_T, HDR_SKIP_T):
+        sp.G = {"U": U}
+    o = U.call(p._do_next)
+    U.ensures("the step returns (event or error)", o.ok or o.raised(m.__pyvc_struct__.error, m.ResParserError), exc=repr(o.exc))
